@@ -211,6 +211,41 @@ def run(ctx, rep) -> None:
             rep.violation(f'{t["id"]}: the event loop stalled', payload=t)
         elif tv[t['id']]['verdict'] != 'accepted':
             rep.violation(f'{t["id"]}: {tv[t["id"]]["verdict"]}', payload=t)
+    # retries under views older than the operator's own progress patch: a raw-event handler patches on every event (the accumulated patch
+    # is never empty), foreign edits, a late stream; the change handler fails temporarily: DelayMonitor.tla states the clause
+    import json, os, re, shutil, tempfile
+    import random as _random
+    from vf.evidence import MachineryFailure
+    from vf.props import C07
+    dscs = []
+    for k_ in range(60 if ctx.quick else 1500):
+        r_ = _random.Random(f'delay-{ctx.seed}-{k_}')
+        edits = sorted(r_.sample(range(3, 40), r_.randint(1, 6)))
+        dscs.append({'id': f'delay-{ctx.seed}-{k_}', 'lag': r_.choice([0, 1, 2, 3]), 'timeout': r_.choice([5, 8]), 'mirror': True, 'edits': edits, 'end': 90,
+                     'ascript': [('temp', r_.choice([2, 3, 5, 7])) for _ in range(r_.randint(1, 3))] + ['ok', ('temp', 4), 'ok']})
+    with ProcessPoolExecutor(16) as ex:
+        dtr = list(ex.map(C07.fresh_case, dscs, chunksize=4))
+    scratch = tempfile.mkdtemp(prefix='vf-delay-')
+    try:
+        path = os.path.join(scratch, 'traces.json')
+        with open(path, 'w') as f:
+            json.dump([{'id': t['id'], 'events': [e for e in t['events'] if e['ev'] == 'inv']} for t in dtr], f)
+        rd = tlc.run('DelayMonitor', cfg_text='SPECIFICATION Spec\nCONSTRAINT Book\nPOSTCONDITION Verdicts\nCHECK_DEADLOCK FALSE\n', workers=1,
+                     env={'TRACE_FILE': path}, timeout=1200)
+    finally:
+        shutil.rmtree(scratch, ignore_errors=True)
+    if not rd.ok:
+        raise MachineryFailure(f'DelayMonitor failed: {rd.violated} {rd.errors}\n{rd.out[-3000:]}')
+    rep.add_tlc('DelayMonitor', rd)
+    got = {int(m.group(1)): m.group(3) for m in re.finditer(r'<<\s*"MONITOR",\s*(\d+),\s*"([^"]*)",\s*"([^"]*)"\s*>>', rd.out)}
+    if len(got) != len(dtr) or 'incomplete' in got.values():
+        raise MachineryFailure(f'DelayMonitor: {len(got)} verdicts for {len(dtr)} traces')
+    rep.evaluations += len(dtr); rep.traces += len(dtr)
+    for i_, t in enumerate(dtr, start=1):
+        if sum(1 for e in t['events'] if e['ev'] == 'inv' and e['k'] == 'temp') > 0:
+            rep.nontrivial([e for e in t['events'] if e['ev'] == 'inv'])
+        if got[i_] != 'ok':
+            rep.violation(f'{t["id"]}: {got[i_]} {[(e["t"], e["retry"], e["k"], e["d"]) for e in t["events"] if e["ev"] == "inv"]}', payload=t)
     from vf import handling as H
     rep.rule = ('(A) TLC exhaustive on MC_Handling_{%s}; (B) seeded random scenarios of profile(s) %s on the real operator, '
                 'judged by Trace_Handling; non-trivial = the trace shows one of %s; distinct = by abstract trace'
